@@ -69,8 +69,8 @@ Lemma parse_boundary_tokens :
   parse_int TInt (Some (TokInt (-1))) = ZVal (-1) /\
   parse_int TInt (Some (TokInt 2147483647)) = ZVal 2147483647 /\
   parse_int TInt (Some (TokInt 4294967296)) = ZFail /\
-  parse_int TSize (Some (TokSci 1 300)) = ZVal 1 /\
-  parse_int TSize (Some (TokFrac 0 1 2)) = ZVal 0 /\
+  parse_int TSize (Some (TokSci 1 300)) = ZFail /\
+  parse_int TSize (Some (TokFrac 0 1 2)) = ZFail /\
   parse_int TSize (Some TokWord) = ZFail /\
   parse_real (Some TokWord) = QFail /\
   parse_real (Some (TokSci 1 300)) = QVal ((10 ^ 300) # 1).
@@ -114,15 +114,8 @@ Proof.
   - destruct (getZ (parse_int TSize (c_ralen c)) (c_u_ralen c) 1000) as [l el].
     destruct (getZ (parse_int TSize (c_rastride c)) (c_u_rastride c) 1) as [s es].
     destruct (s =? 0) eqn:Es.
-    + (* zero stride: error *)
-      destruct (c_corr c) eqn:Eco.
-      * destruct (getZ (parse_int TSize (c_cfoff c)) (c_u_cfoff c) 0) as [o eo].
-        destruct (getZ (parse_int TSize (c_cflen c)) (c_u_cflen c) 1000) as [l2 el2].
-        destruct (getZ (parse_int TSize (c_cfstride c)) (c_u_cfstride c) 1) as [s2 es2].
-        destruct (s2 =? 0) eqn:Es2; cbn [r_uses r_err r_state app]; split;
-          try reflexivity; try (ok_nz); try (rewrite orb_true_r; try rewrite orb_true_l; discriminate);
-          try (intro Hc; rewrite ?orb_true_r in Hc; cbn in Hc; discriminate).
-      * cbn [r_uses r_err r_state app]. split; [reflexivity|]. rewrite orb_true_r. cbn. discriminate.
+    + (* zero stride: error + return *)
+      cbn [r_uses r_err r_state]. split; [reflexivity | discriminate].
     + destruct (c_corr c) eqn:Eco.
       * destruct (getZ (parse_int TSize (c_cfoff c)) (c_u_cfoff c) 0) as [o eo].
         destruct (getZ (parse_int TSize (c_cflen c)) (c_u_cflen c) 1000) as [l2 el2].
@@ -424,8 +417,7 @@ Proof.
   destruct (getQ (parse_real (h_lower c)) 0 0) as [lo e1].
   destruct (getQ (parse_real (h_upper c)) 0 0) as [up e2].
   destruct (getQ (parse_real (h_width c)) 0 0) as [w e3].
-  destruct (Qle_bool w 0); [cbn; split; [reflexivity|discriminate]|].
-  destruct (Qle_bool up lo); [cbn; split; [reflexivity|discriminate]|].
+  destruct (Qle_bool w 0 || Qle_bool up lo); [cbn; split; [reflexivity|discriminate]|].
   destruct (Qle_bool (int_max # 1) ((up - lo) / w)); [cbn; split; [reflexivity|discriminate]|].
   destruct (cast_int ((up - lo) / w) <? 1) eqn:En; [cbn [r_uses r_err]; split; [reflexivity|discriminate]|].
   cbn [r_uses r_err r_state]. split.
